@@ -34,6 +34,7 @@ fn amount(bits: usize) -> BoxedStrategy<u64> {
         3 => proptest::sample::select(sp),
         1 => any::<u64>(),
         1 => (any::<u64>(), 0u32..64).prop_map(|(x, s)| x >> s),
+        1 => index_huge(bits),
     ]
     .boxed()
 }
@@ -302,7 +303,7 @@ fn body<const B: usize, const L: usize>(c: &Case, rec: &mut Rec) -> R {
 fn main() {
     let spec = PropSpec {
         id: "C05",
-        rule_text: "cases (value, amount s, Uint-typed amount) per width: values from the boundary alphabet plus two-set-bit values; s biased to 0,1,63,64,65,64k,64k+-1,BITS-1,BITS,BITS+1,64*LIMBS(+1),2^32,2^63,usize::MAX and uniform in [0,BITS+64*LIMBS+1]; typed operator amounts are s clamped to the type's non-negative range; Uint-typed amounts embed s, or have high limbs set (>= 2^64), or lie in [BITS,2^64); exhaustive enumeration of all values x s in 0..=BITS+66 (+6 large amounts) for BITS <= 8. Oracle: BigUint v*2^s mod 2^BITS with overflow iff v*2^s >= 2^BITS; floor(v/2^s) with overflow iff v mod 2^s != 0; sign-fill for arithmetic_shr; cyclic permutation for rotations. Non-trivial: v != 0, s > 0 and (a set bit leaves the word or s >= 64); flag-true cases are classified by how the bit left (dropped whole limb / top-limb mask / bit carry). Distinct by (width,value,s).",
+        rule_text: "cases (value, amount s, Uint-typed amount) per width: values from the boundary alphabet plus two-set-bit values; s biased to 0,1,63,64,65,64k,64k+-1,BITS-1,BITS,BITS+1,64*LIMBS(+1),2^32,2^63,usize::MAX, huge amounts that wrap to something small when scaled, incremented or narrowed (k*2^61+j, k*2^58+j, 2^e+j, usize::MAX-j) and uniform in [0,BITS+64*LIMBS+1]; typed operator amounts are s clamped to the type's non-negative range; Uint-typed amounts embed s, or have high limbs set (>= 2^64), or lie in [BITS,2^64); exhaustive enumeration of all values x s in 0..=BITS+66 (+6 large amounts) for BITS <= 8. Oracle: BigUint v*2^s mod 2^BITS with overflow iff v*2^s >= 2^BITS; floor(v/2^s) with overflow iff v mod 2^s != 0; sign-fill for arithmetic_shr; cyclic permutation for rotations. Non-trivial: v != 0, s > 0 and (a set bit leaves the word or s >= 64); flag-true cases are classified by how the bit left (dropped whole limb / top-limb mask / bit carry). Distinct by (width,value,s).",
         assumptions: vec![
             "num-bigint shifts are correct (oracle)",
             "signed shift operators are only exercised with non-negative amounts (the property's stated domain)",
